@@ -125,3 +125,20 @@ Example key_ex :
   /\ print_string_key (mkQ false true true 0 false true) false [97; 8205] = Some [97; 226; 128; 141]
   /\ key_value [92; 117; 48; 48; 69; 57; 92; 117; 48; 51; 67; 48] = Some [233; 960].
 Proof. vm_compute. repeat split; reflexivity. Qed.
+
+From V Require Import C01.Template C01.TemplateProofs.
+(* `a$${this}\0${this}\${x`  : a chunk ending in $, a chunk that is NUL (followed by a substitution),
+   a chunk starting with {, wrapping at line limit 6 *)
+Example template_ex :
+  print_template (mkQ false true true 0 false true) [] [97; 36] [[0]; [36; 123; 120]]
+  = [96; 97; 36; 36; 123; 116; 104; 105; 115; 125; 92; 48; 36; 123; 116; 104; 105; 115; 125; 92; 36; 123; 120; 96]
+  /\ template_value (template_cps (mkQ true true true 6 false true) [120; 61] [97; 36; 233] [[0; 49]; [13; 10; 96]])
+      = Some [[97; 36; 233]; [0; 49]; [13; 10; 96]].
+Proof. vm_compute. split; reflexivity. Qed.
+Example regexp_ex :
+  print_regexp (mkQ false true true 0 false true) [49; 47] [47; 49; 47] = [32; 47; 49; 47]
+  /\ print_regexp (mkQ false true false 0 false true) [49; 47] [47; 49; 47] = [32; 47; 49; 47]
+  /\ print_regexp (mkQ false true true 0 false true) [120; 60] [47; 83; 67; 82; 73; 80; 84; 47] = [32; 47; 83; 67; 82; 73; 80; 84; 47]
+  /\ print_regexp (mkQ false true false 0 false true) [120; 60] [47; 83; 67; 82; 73; 80; 84; 47] = [47; 83; 67; 82; 73; 80; 84; 47]
+  /\ print_bigint [97] [49; 50] = [32; 49; 50; 110].
+Proof. vm_compute. repeat split; reflexivity. Qed.
